@@ -79,11 +79,11 @@ class Ctx:
 
     def _match_known(self, inv, sig):
         for k in self.known:
-            s = k.get("signature", {})
-            if s.get("inv", "*") not in ("*", inv):
-                continue
-            if fnmatch.fnmatchcase(str(sig), s.get("sig", "*")):
-                return k
+            for s in k.get("signatures", [k.get("signature", {})]):
+                if s.get("inv", "*") not in ("*", inv):
+                    continue
+                if fnmatch.fnmatchcase(str(sig), s.get("sig", "*")):
+                    return k
         return None
 
     def _report(self, kind, inv, sig, tid, line, replay_payload):
